@@ -325,7 +325,7 @@ def cprog(cmds, tail):
 
 def main():
     out = ['(* GENERATED by tools/gen/gen_gitcfg.py from %s -- do not edit *)' % REPO,
-           'From Coq Require Import String List NArith.', 'From NB Require Import Base.Json Sys.GitCfg.',
+           'From Coq Require Import String List NArith.', 'From NB Require Import Base.Json.', 'From NB Require Import Sys.GitCfg.',
            'Import ListNotations.', 'Local Open Scope string_scope.', '']
     takes = {}
     for tool, mod in MODULES:
